@@ -30,6 +30,9 @@ PROPS = {
     "C16": dict(world="hook_world", level="fault_enumeration",
                 quick=dict(runs=30000, wall=240, chunk=500), thorough=dict(runs=1200000, wall=1500, chunk=4000),
                 assumptions=COMMON_ASSUME + ["hook death is injected as del + gc.collect() of the last reference held by the harness"]),
+    "C07": dict(world="reducer_world", level="exploration",
+                quick=dict(runs=20000, wall=240, chunk=500), thorough=dict(runs=800000, wall=1500, chunk=4000),
+                assumptions=COMMON_ASSUME + ["continuous values compared with |a-b| <= 2e-5 + 2e-4|b|; view times within max(4 tol, 0.05 dt) of the grid but outside tol are not judged"]),
     "C13": dict(world="record_world", level="exploration",
                 quick=dict(runs=40000, wall=240, chunk=500), thorough=dict(runs=1500000, wall=1500, chunk=4000),
                 assumptions=COMMON_ASSUME),
